@@ -19,6 +19,7 @@ package eip712
 import (
 	"bytes"
 	"context"
+	"encoding/json"
 	"fmt"
 	"sort"
 	"strconv"
@@ -49,6 +50,28 @@ type Type []*TypeMember
 type TypeSet map[string]Type
 
 const EIP712Domain = "EIP712Domain"
+
+// UnmarshalJSON keeps every JSON number in the domain and message as a json.Number (its exact text),
+// rather than the float64 of default JSON decoding. A float64 holds integers exactly only up to 2^53,
+// so an int<M>/uint<M> member written as a JSON number would otherwise be hashed as a different value
+// to the one in the document (and wrap to a negative value from 2^63).
+func (td *TypedData) UnmarshalJSON(b []byte) error {
+	type typedDataNoUnmarshaler TypedData
+	d := json.NewDecoder(bytes.NewReader(b))
+	d.UseNumber()
+	return d.Decode((*typedDataNoUnmarshaler)(td))
+}
+
+// jsonNumberAsFloat64 gives a member that is not an integer the value default JSON decoding would
+// have supplied for a JSON number, so that a number is refused for a bool, address, bytes or string
+// member exactly as before (ABI input parsing would otherwise take the json.Number as a string).
+func jsonNumberAsFloat64(v interface{}) interface{} {
+	if n, ok := v.(json.Number); ok {
+		f, _ := n.Float64()
+		return f
+	}
+	return v
+}
 
 func EncodeTypedDataV4(ctx context.Context, payload *TypedData) (encoded ethtypes.HexBytes0xPrefix, err error) {
 	if payload == nil {
@@ -272,6 +295,9 @@ func encodeElement(ctx context.Context, typeName string, v interface{}, allTypes
 		return nil, err
 	}
 	baseType := tc.ElementaryType().BaseType()
+	if baseType != abi.BaseTypeInt && baseType != abi.BaseTypeUInt {
+		v = jsonNumberAsFloat64(v)
+	}
 	switch baseType {
 	case abi.BaseTypeAddress, abi.BaseTypeBool, abi.BaseTypeInt, abi.BaseTypeUInt:
 		return abiEncode(ctx, tc, v, breadcrumbs)
